@@ -83,7 +83,7 @@ func dumpRepStake(c *Chain) []string {
 func runRepStakeHist(t *testing.T, in []string) string {
 	nv, _ := strconv.Atoi(in[0])
 	maxv, _ := strconv.Atoi(in[2])
-	c, err := NewChain(ChainCfg{NVals: nv, NAccts: 4, MaxValidators: uint32(maxv)})
+	c, err := NewChain(ChainCfg{NVals: nv, NAccts: 6, MaxValidators: uint32(maxv)})
 	if err != nil {
 		return "err:newchain:" + shortLog(err.Error())
 	}
@@ -155,16 +155,24 @@ func genRepStakeHist(r *Rng, i int, tier string) []string {
 	add("blk 1000")
 	add("blk 1000")
 	tx("mkrep v0 0 1000000")
-	tx("mkrep v1 0 %d", r.Pick(1000000, 2000000))
+	tx("mkrep v1 0 %d", r.Pick(1000000, 2000000, 3000000))
 	tx("del a0 v0 %d", r.Range(2e6, 2e7))
 	tx("del a2 v%d %d", r.Intn(nv), r.Range(2e6, 2e7))
 	tx("del a3 v%d %d", r.Intn(nv), r.Range(1e6, 2e7))
 	if r.Chance(2, 3) {
-		tx("mkrep a0 0 %d", r.Pick(1000000, 3000000))
+		tx("mkrep a0 0 %d", r.Pick(1000000, 2000000, 3000000))
+	}
+	if maxv < 100 { // more delegations than the validator cap: ReporterStake then walks the bonded validators instead
+		for j := 0; j < nv; j++ {
+			tx("del a2 v%d %d", j, r.Range(1e6, 5e6))
+			if r.Chance(1, 2) {
+				tx("del v0 v%d %d", j, r.Range(1e6, 5e6))
+			}
+		}
 	}
 	tx("sel a2 %s", r.PickS("v0", "v1", "a0"))
 	tx("sel a3 %s", r.PickS("v0", "v1", "a0"))
-	accts := []string{"a0", "a1", "a2", "a3", "v0", "v1"}
+	accts := []string{"a0", "a1", "a2", "a3", "a4", "a5", "v0", "v1"}
 	reps := []string{"v0", "v1", "a0", "a1"}
 	pick := func() string { return accts[r.Intn(len(accts))] }
 	nops := 40 + r.Intn(40)
@@ -174,11 +182,17 @@ func genRepStakeHist(r *Rng, i int, tier string) []string {
 	ndisp := 0
 	for k := 0; k < nops; k++ {
 		a := pick()
-		switch r.Intn(20) {
+		switch r.Intn(22) {
 		case 0:
-			tx("mkrep %s 0 %d", a, r.Pick(1000000, 2000000, 5000000, 999999))
-		case 1:
-			tx("sel %s %s", a, reps[r.Intn(4)])
+			tx("mkrep %s 0 %d", a, r.Pick(1000000, 2000000, 3000000, 999999))
+		case 20, 21:
+			j := r.PickS("a1", "a2", "a3", "a4", "a5")
+			tx("del %s v%d %d", j, r.Intn(nv), r.Pick(999999, 1000000, 1999999, 2000000, 2999999, 3000000, 1500000, 500000))
+			tx("%s %s %s", r.PickS("sel", "sel", "sw"), j, reps[r.Intn(4)])
+		case 1: // a join attempt with a stake at the boundary of the reporters' minimum requirements
+			j := r.PickS("a1", "a2", "a3", "a4", "a5")
+			tx("del %s v%d %d", j, r.Intn(nv), r.Pick(999999, 1000000, 1999999, 2000000, 2999999, 3000000, 1500000, 500000))
+			tx("%s %s %s", r.PickS("sel", "sel", "sw"), j, reps[r.Intn(4)])
 		case 2, 3, 4:
 			tx("sw %s %s", r.PickS("a1", "a2", "a3"), reps[r.Intn(3)])
 		case 5:
